@@ -577,6 +577,23 @@ class Facts:
                 return c2[0]
         return None
 
+    def fn_sig(self, path, prefix, ret=(), nargs=None):
+        """The function at `path`, or — when it was renamed or turned into a method — the unique non-closure function under
+        `prefix` whose return type mentions every string of `ret` (and that takes `nargs` arguments): anchoring by what a
+        function *is* (its signature) survives renames that anchoring by name does not."""
+        f = self.fn(path)
+        if f is not None:
+            return f
+        out = []
+        for p_, g in self.fns.items():
+            if not p_.startswith(prefix) or g.kind not in ("Fn", "AssocFn"):
+                continue
+            r0 = g.locals[0] if g.locals else ""
+            r0 = r0 if isinstance(r0, str) else r0.get("ty", "")
+            if all(x in r0 for x in ret) and (nargs is None or g.arg_count == nargs):
+                out.append(g)
+        return out[0] if len(out) == 1 else None
+
     @staticmethod
     def _tail(path):
         import re as _re
